@@ -3,10 +3,38 @@
 import json, os
 root = os.path.dirname(os.path.dirname(os.path.abspath(__file__)))
 BASE = "cd /repo && /venv/bin/python -m pytest -ra -q -p no:cacheprovider --timeout=900 --continue-on-collection-errors"
+F1NOTE = 'bounded: history length / word length / alphabet as stated in evidence.bounds; children built with xsd_check=False (one level under test); oracle from the pinned reference model; z3 decides operand feasibility (closure queries) and the language oracle'
 CHECKS = {
+ 'C01': dict(cat='model_checking', tech='z3-driven dynamic symbolic execution of the real API over operation histories; oracle = z3 regex membership in the reference content model',
+             text='Every history of up to K child-mutating operations (8 kinds, operands chosen and closed by the solver) is executed on the real element classes; whenever to_string returns, the child sequence in the output must be a word of the schema content model (z3 regex membership, NFA cross-check). Bounded exploration of the implementation itself: states are completed paths, every trace ran on the real code.',
+             note=F1NOTE, ref='3 C01'),
+ 'C02': dict(cat='model_checking', tech='words of each content model (NFA proposes, z3 confirms membership and closes each length with an unsat query) fed to the real add_child and parser',
+             text='All words up to the length bound of all 94 content models, complete per length by a z3 closure query, are supplied in document order to add_child and to the parser; acceptance, completeness and identity-level order are asserted.',
+             note=F1NOTE, ref='3 C02'),
  'C03': dict(cat='translation_validation', tech='z3 regular-language equivalence / inclusion and finite-relation queries on tables extracted from the imported library vs an independently derived, pinned model of the XSD',
              text='Every generated or hand-written table of the library (class inventory, type binding, content-model templates and fresh-instance trees, attribute tables, simple-type facets and patterns, the schema copy) is compared with an independent reading of MusicXML 4.0; content models and patterns by unbounded regular-language equivalence decided by z3, the rest as finite relations.',
              note='trusts vf/refmodel.py and the pinned model, z3 sequence theory, the two regex translators (cross-validated against re); patterns relative to a finite alphabet and length <= 10/14', ref='3 C03'),
+ 'C05': dict(cat='model_checking', tech='dynamic symbolic execution of the real validators on symbolic int / Float64 / string values (z3), one validity query per path against the reference lexical spaces',
+             text='The real simple-type classes and element constructors run on symbolic ints (unbounded), floats (all of Float64) and strings (finite alphabet, bounded length); all paths are enumerated and closed by unsat answers; per accepting path z3 is asked for a value whose emitted text is invalid, per rejecting path for a valid one; every path is cross-validated by a concrete run.',
+             note='stubs: re.fullmatch -> z3 InRe of the translated pattern, get_cleaned_token identity on normalised strings, decimal.Decimal/format positional rendering; CPython str/repr lemmas; finite alphabet', ref='3 C05'),
+ 'C06': dict(cat='model_checking', tech='z3-driven dynamic symbolic execution over operation histories with identity-level view comparison after every operation',
+             text='Same exploration as C01; after every operation the schema-ordered view, the insertion-ordered view and the harness record of live children are compared by object identity, parents of live and removed children are checked, and serialised child counts are compared.',
+             note=F1NOTE, ref='3 C06'),
+ 'C07': dict(cat='model_checking', tech='add-only symbolic histories on the real code; oracle = Parikh-image feasibility of the content model in linear integer arithmetic (z3)',
+             text='After every accepted addition the multiset of held children must be contained in some word of the content model, decided by z3 over the Parikh formula (unbounded word length); candidates are confirmed on the real code by to_string and a bounded completion search.',
+             note=F1NOTE, ref='3 C07'),
+ 'C10': dict(cat='model_checking', tech='symbolic histories on the real code; every raising call compared with the pre-state and with a twin history without the failed calls (snapshot + acceptance vector)',
+             text='Bounded exploration of histories in which calls fail; state before/after each failed call on the same object and end state versus a twin element that never saw the failed calls.',
+             note=F1NOTE, ref='3 C10'),
+ 'C11': dict(cat='model_checking', tech='symbolic histories with removals on the real code compared with a fresh twin holding the remaining children',
+             text='Bounded exploration of ADD/REMOVE/xml_x=None histories; after a removal the element must be observationally equal (serialisation or missing-children verdict, acceptance of each next child) to a fresh element with the remaining children.',
+             note=F1NOTE, ref='3 C11'),
+ 'C12': dict(cat='model_checking', tech='multisets with a unique arrangement (two z3 arrangement queries) fed in all permutations to the real add_child; Parikh LIA for still-compatible children',
+             text='(a) For multisets whose schema-valid arrangement is unique (decided by z3), every distinguishable insertion order must be accepted and serialise in that arrangement with same-named children in insertion order; (b) a child whose addition keeps the multiset completable (Parikh formula) must not be rejected.',
+             note=F1NOTE, ref='3 C12'),
+ 'C19': dict(cat='model_checking', tech='exception / output / time monitor over z3-driven symbolic histories on the real code with the widest operand ranges',
+             text='Every exception escaping a public call in the explored histories is classified as documented or internal, stdout/stderr are captured per call and each path runs under a timer.',
+             note=F1NOTE + '; TypeError/ValueError treated as documented everywhere', ref='3 C19'),
 }
 NA = {}
 allp = [json.loads(l)['id'] for l in open(os.path.join(root, 'properties.jsonl'))]
